@@ -134,8 +134,8 @@ impl Property for C20 {
     }
     fn budget(tier: Tier) -> u64 {
         match tier {
-            Tier::Quick => 1_000_000,
-            Tier::Thorough => 5_000_000,
+            Tier::Quick => 300_000,
+            Tier::Thorough => 3_000_000,
         }
     }
 
@@ -242,24 +242,18 @@ impl Property for C20 {
         Scenario { mode: 0, sources, schedule, fs_reads: 0, fs_match: false, fs_drop_after: None, fs_burst: 0, fs_inside: false, seed: rng.next_u64() }
     }
 
+    /// Every scenario runs on a thread of its own: the barrier registry of the subject is thread-local, and
+    /// whatever a run leaves behind in it (a barrier that was not unregistered, a cached lookup) must show
+    /// inside that run, reproducibly, instead of leaking into the next scenario of the same worker.
     fn run(sc: &Scenario, keep: bool) -> Report {
-        let mut log = Log::new(keep);
-        let mut rep = Report::default();
-        let r = catch(|| match sc.mode {
-            0 => run_exec(sc, &mut log, &mut rep),
-            2 => run_burst(sc, &mut log, &mut rep),
-            _ => run_fs(sc, &mut log, &mut rep),
-        });
-        let violation = match r {
-            Ok(v) => v,
-            Err(p) => Some(Violation::new("Panic", format!("unexpected panic outside a source task: {p}"))),
-        };
-        rep.abstract_digest = log.abs_digest();
-        rep.full_digest = log.full_digest();
-        rep.log = log.lines;
-        rep.violation = violation;
-        rep.steps = sc.schedule.len() as u64;
-        rep
+        std::thread::scope(|s| {
+            std::thread::Builder::new()
+                .stack_size(512 << 10)
+                .spawn_scoped(s, || run_here(sc, keep))
+                .expect("spawn scenario thread")
+                .join()
+                .expect("scenario thread")
+        })
     }
 
     fn shrink(sc: &Scenario) -> Vec<Scenario> {
@@ -298,6 +292,27 @@ impl Property for C20 {
             .join(",")
     }
 }
+
+fn run_here(sc: &Scenario, keep: bool) -> Report {
+    let mut log = Log::new(keep);
+    let mut rep = Report::default();
+    let r = catch(|| match sc.mode {
+        0 => run_exec(sc, &mut log, &mut rep),
+        2 => run_burst(sc, &mut log, &mut rep),
+        _ => run_fs(sc, &mut log, &mut rep),
+    });
+    let violation = match r {
+        Ok(v) => v,
+        Err(p) => Some(Violation::new("Panic", format!("unexpected panic outside a source task: {p}"))),
+    };
+    rep.abstract_digest = log.abs_digest();
+    rep.full_digest = log.full_digest();
+    rep.log = log.lines;
+    rep.violation = violation;
+    rep.steps = sc.schedule.len() as u64;
+    rep
+}
+
 
 async fn source_prog(ops: Vec<SrcOp>, progress: Rc<Cell<usize>>) {
     for (i, op) in ops.iter().enumerate() {
